@@ -132,7 +132,9 @@ OnInit(g, e) ==
                       THEN (-1 :> [NoReq EXCEPT !.acc = TRUE, !.kind = "simple", !.exp = <<e.sexp>>,
                                                 !.ecb = e.secb, !.ccb = e.sccb])
                       ELSE <<>>],
-      Chk("C11.pools", -1, Card(SeqSet(e.allps)) = Len(e.allps)),
+      Chk("C11.pools", -1, Card(SeqSet(e.allps)) = Len(e.allps))
+      \* (a SimpleTaskPool constructed with a plain function: the documented error, nothing else)
+      \cup Chk("C09.err", -1, (e.cls = "SimpleTaskPool" /\ Has(e, "ctor")) => "NotCoroutineFunction" \in SeqSet(e.ctor)),
       Hit("C11.pools", Len(e.allps) > 1))
 
 OnCall(g, e) ==
